@@ -99,6 +99,9 @@ func envFromJ(envJ A) (func() *types.Env, func() *val.Env) {
 	return te, ve
 }
 
+// post: user functions registered after the engine's first compilation (which registers the built-ins)
+var curPost A
+
 func newEngine(pre A, comp compiler.Compiler) *yae.Expr {
 	ex := yae.NewExpr()
 	for _, id := range pre {
@@ -106,6 +109,14 @@ func newEngine(pre A, comp compiler.Compiler) *yae.Expr {
 	}
 	if comp != nil {
 		ex.UseCompiler(comp)
+	}
+	if len(curPost) > 0 {
+		if _, err := ex.Compile("1", types.NewEnv()); err != nil {
+			panic("warm-up compile failed: " + err.Error())
+		}
+		for _, id := range curPost {
+			ex.RegisterFun(userFuns[id.(string)]())
+		}
 	}
 	return ex
 }
@@ -119,6 +130,9 @@ func funTable(pre A) *types.Env {
 	}
 	for _, f := range fun.BuiltIn() {
 		tbl.RegisterFun(f.Type)
+	}
+	for _, id := range curPost {
+		tbl.RegisterFun(userFuns[id.(string)]().Type)
 	}
 	return tbl
 }
@@ -193,6 +207,7 @@ func resolveEnv(c J) {
 	}
 	c["env"] = d["env"]
 	c["pre"] = d["pre"]
+	c["post"] = d["post"]
 }
 
 func runEval(c J) J {
@@ -201,10 +216,12 @@ func runEval(c J) J {
 		if _, ok := c["envid"]; ok {
 			delete(c, "env")
 			delete(c, "pre")
+			delete(c, "post")
 		}
 	}()
 	e := obj(c["e"])
 	pre := arr(c["pre"])
+	curPost = arr(c["post"])
 	style := 0
 	if s, ok := c["style"]; ok {
 		style = toInt(s)
